@@ -1037,6 +1037,35 @@ func c08Extra(x *c08, funcs []*FuncInfo, allPaths map[*FuncInfo][]*Path) {
 		if len(ints) == 0 {
 			continue
 		}
+		// a method that never reaches the cells - no access to the backing slice, no call of another function of the
+		// tree - has nothing to guard (a predicate such as InBounds, an accessor): the rule is about cell accesses
+		reaches := false
+		for _, p := range allPaths[fi] {
+			for i := range p.Events {
+				e := &p.Events[i]
+				if (e.Kind == "call" || e.Kind == "go" || e.Kind == "defer") && e.SSAFn != nil && c.P.BySSA[e.SSAFn] != nil {
+					reaches = true
+				}
+				for _, t := range append([]*Term{e.Addr, e.Val, e.Key}, e.Args...) {
+					if t != nil && mentionsField(t, x.fS) {
+						reaches = true
+					}
+				}
+			}
+			for _, ac := range p.Acc {
+				if ac.Addr != nil && mentionsField(ac.Addr, x.fS) {
+					reaches = true
+				}
+			}
+			for _, r := range p.Rets {
+				if r != nil && mentionsField(r, x.fS) {
+					reaches = true
+				}
+			}
+		}
+		if !reaches {
+			continue
+		}
 		ok, why := true, ""
 		nret := 0
 		for _, p := range allPaths[fi] {
